@@ -60,7 +60,11 @@ func vQuiesce(c *diskCache) {
 	for i := 0; i < 400; i++ {
 		idx := vIndexFiles(c)
 		stray := false
+		ign, _ := vIgnoreSuffix.Load(c.dir)
 		for _, f := range vListing(c.dir) {
+			if s, ok := ign.(string); ok && strings.HasSuffix(strings.ToLower(f.Name), s) {
+				continue
+			}
 			if _, ok := idx[f.Name]; !ok {
 				stray = true
 				break
@@ -129,6 +133,16 @@ func vIndexFiles(c *diskCache) map[string]int64 {
 	return out
 }
 
+func vSilentLogger() *log.Logger { return log.New(io.Discard, "", 0) }
+
+// vCheckQuiescentIgnoring is vCheckQuiescent for directories that may hold .DS_Store files.
+func vCheckQuiescentIgnoring(c *diskCache, lowerSuffix string) (c03 string, c04 string) {
+	vIgnoreSuffix.Store(c.dir, lowerSuffix)
+	return vCheckQuiescent(c)
+}
+
+var vIgnoreSuffix sync.Map // dir -> lower-case suffix of file names the oracles ignore
+
 // vCheckQuiescent evaluates the C03 and C04 oracles at quiescence on the implementation alone.
 func vCheckQuiescent(c *diskCache) (c03 string, c04 string) {
 	vQuiesce(c)
@@ -149,7 +163,11 @@ func vCheckQuiescent(c *diskCache) (c03 string, c04 string) {
 	}
 	files := vListing(c.dir)
 	seen := map[string]bool{}
+	ign, _ := vIgnoreSuffix.Load(c.dir)
 	for _, f := range files {
+		if s, ok := ign.(string); ok && strings.HasSuffix(strings.ToLower(f.Name), s) {
+			continue
+		}
 		seen[f.Name] = true
 		sz, ok := idx[f.Name]
 		if !ok {
